@@ -380,6 +380,14 @@ def install(w):
             z3.Implies(k == 0, LLS(A, n, t) == 0),
         ))
     w.spec_funcs["match_link"] = f_match_link
+    w.spec_funcs["count_lt"] = lambda it, s2: VInt(count_lt(it, s2))
+
+    def f_ends_esc3(it, s2):
+        v = sym.as_view(s2)
+        n = v.length()
+        lit = '\\"""'
+        return VBool(z3.And(n >= 4, *[v.char(n - 4 + k) == ord(lit[k]) for k in range(4)]))
+    w.spec_funcs["ends_with_escaped_triple"] = f_ends_esc3
 
     def f_match_start(it, body, k):
         A, n = _base(body, "match_start")
